@@ -88,6 +88,11 @@ def generate(tier, rng):
             for kinds in variants:
                 if any(e[0] in kinds for e in log):
                     yield dict(c, ops=c["ops"][:-1] + [dict(op, faults={"kinds": kinds})])
+    for n0, ops, pinned, after in fc.pinned_cases(rng, tier):
+        fl = rng.choice(["nm", "light"])
+        c = fc.mk(fl, False, n0, ops, cls=("pinmixin" if fl == "nm" else "lightpin"))
+        c.update({"pinned": pinned, "pin_after": after, "loglevel": 1})
+        yield c
     for n0, ops in fc.wide_histories(rng, tier, pre_only=True):
         fl = rng.choice(["nm", "light"])
         if any(fc.has_nonnode(o) for o in ops):
@@ -118,6 +123,15 @@ def _first_pre(op, r):
 def judge(case, impl, drv):
     if not isinstance(impl, list):
         return False, False
+    if case.get("pinned"):
+        # model-free: the final call meets the pinned first child before it has changed anything: it must raise TreeError
+        # and leave the forest as it was; the history before it must agree with the mirror
+        k = case["pin_after"]
+        mirk = drv["mirror"][:k]
+        c_ok = len(impl) == len(case["ops"]) and all(r["res"] == m["res"] and r["snap"] == m["snap"] for r, m in zip(impl[:k], mirk))
+        before = impl[k - 1]["snap"] if k else [[None, []] for _ in range(case["n0"])]
+        p_ok = len(impl) > k and impl[k]["res"] == "TreeError" and impl[k]["snap"] == before
+        return p_ok, c_ok
     mir, spec = drv["mirror"], drv["spec"]
     p_ok = c_ok = True
     pre = [[None, []] for _ in range(case["n0"])]
